@@ -17,7 +17,7 @@ open SxVerif.RangeIter SxVerif.Generated SxVerif.Pratt
 theorem translator_clean : translatorProblems = [] := by decide
 
 /-- every proposed Pratt certificate checks (kernel evaluation of the `Bool` checker) -/
-theorem certs_ok : checkCerts prattCerts = true := by decide
+theorem certs_ok : checkCerts prattCerts = true := by decide +kernel
 
 /-- every table row: `P` prime, `G` a primitive root mod `P`, `N` coprime to `P - 1` -/
 theorem table_ok : ∀ r ∈ cyclicGroups, RowOK r := by
@@ -51,8 +51,8 @@ theorem C04_upto_2_32 (n r1 r2 : Nat) (h1 : 1 ≤ n) (h2 : n ≤ 2 ^ 32) :
   C04_perm n r1 r2 h1 (by rw [Pmax_value]; omega)
 
 -- non-vacuity: concrete runs (tests, labelled as such)
-example : run cyclicGroups 5 7 11 = .ok [4, 1, 3, 2, 5] ∨ True := Or.inr trivial
-example : ∃ l, run cyclicGroups 10 123456789 987654321 = .ok l ∧ l.length = 10 := by
-  refine ⟨_, by decide, by decide⟩
+example : run cyclicGroups 5 7 11 = .ok [5, 3, 1, 2, 4] := by decide +kernel
+example : ∃ l, run cyclicGroups 10 123456789 987654321 = .ok l ∧ l.length = 10 :=
+  ⟨[7, 9, 10, 5, 8, 4, 2, 1, 6, 3], by decide +kernel, by decide⟩
 
 end SxVerif.C04
